@@ -177,7 +177,21 @@ func misspell(rt *rapid.T, lex []string) []string {
 }
 
 func genC10Case(rt *rapid.T) (valCase, bool) {
-	class := rapid.IntRange(0, 4).Draw(rt, "class")
+	class := rapid.IntRange(0, 5).Draw(rt, "class")
+	if class == 5 {
+		// a schema that extends built-in types (the only user text that touches definitions every
+		// load starts from) and an introspection document over the extended types, sometimes misspelt
+		st := gen.TypedSchema().Draw(rt, "schema")
+		for i, n := 0, rapid.IntRange(1, 2).Draw(rt, "nbext"); i < n; i++ {
+			gen.ExtendBuiltin(rt, &st)
+		}
+		q := rapid.SampledFrom([]string{
+			`{ __schema { extra types { extra kind } } }`, `{ __type(name: "Query") { extra fields { extra } enumValues { extra2 } } }`,
+			`{ __type(name: "Query") { kind fields { extr } enumValues { extra } } }`, `{ __schema { extr types { extra2 } } }`,
+			`query ($k: __TypeKind = EXTR) { __typename }`, `query ($k: __TypeKind = EXTRA) { __typename }`, `query ($k: __TypeKind = "EXTRA") { __typename }`,
+		}).Draw(rt, "introq")
+		return valCase{Schema: renderSchemaTree(st, gen.Canon), Query: q, Class: "extends-built-in"}, true
+	}
 	if class == 4 {
 		d := gen.OverlapDocument(rt, rapid.Bool().Draw(rt, "acyclic"))
 		return valCase{Schema: gen.OverlapSchema, Query: gen.JoinPlain(gen.QueryLexemes(d, gen.Canon)), Class: "overlap"}, true
@@ -232,7 +246,7 @@ func TestC10Child(t *testing.T) {
 func TestC10(t *testing.T) {
 	r := kit.New(t, "C10")
 	defer r.Finish()
-	r.SetRule("(schema, document) pairs biased to invalid documents (G9 faults, type-blind documents) and to ties (one or two name lexemes misspelt by one letter, landing at equal distance from several candidates of the schema's near-duplicate name pools), plus schemas with two independent faults for LoadSchema errors. " +
+	r.SetRule("(schema, document) pairs biased to invalid documents (G9 faults, type-blind documents) and to ties (one or two name lexemes misspelt by one letter, landing at equal distance from several candidates of the schema's near-duplicate name pools), plus schemas with two independent faults for LoadSchema errors, dense-overlap documents, and schemas extending built-in types with introspection documents over the extensions. " +
 		"oracle: the complete error list (message, rule, locations, path, extensions, order) is identical over N fresh load+parse+validate runs in one process (Go randomises every map iteration), when the same parsed document is validated again, and in 3 freshly started child processes. non-trivial = non-empty error list; distinct by (schema, document) text")
 	kit.RegisterReplayer("C10", "pair", c10Replay)
 	kit.RegisterReplayer("C10", "corpus", c10Replay)
